@@ -65,6 +65,14 @@ pub fn install_panic_hook() {
     }));
 }
 
+pub fn clear_last_panic() {
+    LAST_PANIC.with(|p| *p.borrow_mut() = None);
+}
+
+pub fn take_last_panic() -> Option<String> {
+    LAST_PANIC.with(|p| p.borrow_mut().take())
+}
+
 /// Run `f`, converting a panic into `Err(file:line: message)`.
 pub fn guarded<T>(f: impl FnOnce() -> T) -> Result<T, String> {
     LAST_PANIC.with(|p| *p.borrow_mut() = None);
